@@ -125,6 +125,9 @@ impl<LHS: PrimInt, RHS: PrimInt> CheckedBinaryOp<LHS, RHS, i64> for Modulo<LHS, 
     fn perform_checked(lhs: LHS, rhs: RHS) -> (i64, bool) {
         if rhs.to_i64().unwrap() == 0 {
             (1, true)
+        } else if rhs.to_i64().unwrap() == -1 {
+            // x % -1 is 0 for every x; i64::MIN % -1 would panic
+            (0, false)
         } else {
             (lhs.to_i64().unwrap() % rhs.to_i64().unwrap(), false)
         }
